@@ -172,3 +172,69 @@ func scPrice(ps ParamSet, p1pricing, p2pricing string, tmpls []Template, o Alpha
 	sc.Setup = lifeSetup(p1pricing, p2pricing, 10)
 	return sc
 }
+
+// ---------------------------------------------------------------------------------------------
+// S-BIND
+
+var tSlash = Template{Name: "slash", Consumer: "C1", Service: "a", Providers: []string{"P1"}, Cap: 25, Timeout: 1}
+var tSlash2 = Template{Name: "slash2", Consumer: "C1", Service: "a", Providers: []string{"P1", "P2"}, Cap: 25, Timeout: 1, Repeated: true, Freq: 1, Total: 2}
+
+func bindOpsFull() []Action {
+	return []Action{
+		actBind("a", "P1", "O1", 9, "p1", 1),
+		actBind("a", "P1", "O1", 10, "p1", 1),
+		actBind("a", "P1", "O1", 30, "p20", 1),
+		actBind("a", "P1", "O1", 40, "p20", 1),
+		actBind("a", "P2", "O2", 10, "p5", 1),
+		actBind("a", "P1", "O2", 10, "p1", 1), // provider already owned by O1 once bound
+		actUpdate("a", "P1", "O1", 0, "p20", 0),
+		actUpdate("a", "P1", "O1", 0, "p1", 0),
+		actUpdate("a", "P1", "O1", 30, "", 0),
+		actUpdate("a", "P1", "O1", 30, "p20", 0),
+		actUpdate("a", "P1", "O1", 0, "", 2),
+		actDisable("a", "P1", "O1"),
+		actEnable("a", "P1", "O1", 0),
+		actEnable("a", "P1", "O1", 30),
+		actRefund("a", "P1", "O1"),
+	}
+}
+
+func scBind(ps ParamSet, ops []Action, tmpls []Template, respKinds []string, depth, blocks, msgs int) *Scenario {
+	return &Scenario{
+		Name: "S-BIND", Params: ps,
+		Funds: []Funding{{O1, 100}, {O2, 100}, {C1, 60}}, Extra: allAccounts,
+		Setup:     []Action{actDefine("a", "AU")},
+		Templates: tmpls,
+		Alpha:     lifeAlpha(AlphaOpts{RespKinds: respKinds, BindOps: ops}),
+		Depth:     depth, MaxBlocks: blocks, MaxMsgs: msgs,
+	}
+}
+
+// ---------------------------------------------------------------------------------------------
+// S-FEES: two owners; P1,P2 owned by O1; P3,Pp owned by O2; Pp is a byte-prefix of P1 (and never signs).
+
+var tFees = Template{Name: "fees", Consumer: "C1", Service: "a", Providers: []string{"P1", "P2", "P3"}, Cap: 5, Timeout: 3}
+var tFees2 = Template{Name: "fees2", Consumer: "C1", Service: "a", Providers: []string{"P1", "P3"}, Cap: 5, Timeout: 2}
+
+func scFees(ps ParamSet, wrong bool, depth, blocks, msgs int) *Scenario {
+	o := AlphaOpts{RespKinds: []string{"ok"},
+		Withdraw: []string{"O1:", "O1:P1", "O1:P2", "O2:", "O2:P3", "O2:Pp"},
+		SetW:     []string{"O1:W1", "O1:O1", "O2:W1"}}
+	if wrong {
+		o.Withdraw = append(o.Withdraw, "O2:P1", "XX:", "XX:P1")
+		o.SetW = append(o.SetW, "XX:W1")
+	}
+	sc := &Scenario{
+		Name: "S-FEES", Params: ps,
+		Funds: []Funding{{O1, 100}, {O2, 100}, {C1, 60}}, Extra: allAccounts,
+		Setup: []Action{actDefine("a", "AU"),
+			actBind("a", "P1", "O1", 10, "p2", 1), actBind("a", "P2", "O1", 10, "p3vv", 1),
+			actBind("a", "P3", "O2", 10, "p2", 1), actBind("a", "Pp", "O2", 10, "p2", 1)},
+		Templates: []Template{tFees, tFees2},
+		Alpha:     lifeAlpha(o),
+		Depth:     depth, MaxBlocks: blocks, MaxMsgs: msgs,
+	}
+	// start with the first batch already issued
+	sc.Setup = append(sc.Setup, sc.actCall(0), actE())
+	return sc
+}
